@@ -306,6 +306,18 @@ def eigh(A, UPLO='L'):
         idx = sym_argsort(W(d, _real_dtype(ld)))
         V = _obj(np.eye(n))[:, idx]
         return W(d[idx], _real_dtype(ld)), W(V, ld)
+    # zero padding: [[B, 0], [0, 0]] with B known -> eigenvalues of B and zeros (ascending: comparisons fork), eigenvectors blockdiag(V, I)
+    for k in range(n - 1, 0, -1):
+        if all(C(a[i, j]).is_zero() for i in range(n) for j in range(n) if i >= k or j >= k):
+            sub = _lookup("eigh", a[:k, :k])
+            if sub is not None:
+                from .array import sym_argsort
+                w, V = sub
+                wz = np.array([C(x).real for x in _obj(w)] + [C(0)] * (n - k), dtype=object)
+                Vz = _obj(np.eye(n)).copy()
+                Vz[:k, :k] = _obj(V)
+                idx = sym_argsort(W(wz, _real_dtype(ld)))
+                return W(wz[idx], _real_dtype(ld)), W(Vz[:, idx], ld)
     raise Inconclusive("eigh of a symbolic matrix that is not in the harness' parametrised form")
 
 
